@@ -19,6 +19,8 @@ INNER = ('object', {'action_space': ASPACE, 'state_space': 'Token', 'observation
 REPSP = ('object', {'space': ('dict', {})})
 OUTER = ('new', OEM + 'OuterEnv', [INNER], {'state_representation': ('opt', REPSP), 'observation_representation': ('opt', REPSP)})
 GYM = ('new', GM + 'GymEnvironment', [OUTER])
+# whatever representation the environment was built with, asking for one by name installs that one
+REP_NAMES = ('oneof', ['default', 'no-overlap', 'compact', 'something-else'])
 
 
 @contract(target=GM + 'GymEnvironment.step', args={'self': GYM, 'action': 'int'},
@@ -55,7 +57,7 @@ def gym_init(self, outer_env):
         and implies(outer_env.observation_representation is not None, lambda: ghost_calls(TOGYM) >= 1)))
 
 
-@contract(target=GM + 'GymEnvironment.set_state_representation', args={'self': GYM, 'name': 'str'},
+@contract(target=GM + 'GymEnvironment.set_state_representation', args={'self': GYM, 'name': REP_NAMES},
           stubs={MKS: ('object', {'space': 'Token'}), TOGYM: 'Token'}, props=['C20'])
 def gym_set_state_representation(self, name):
     ensures('representation-and-advertised-space-change-together', lambda: returned()
@@ -66,7 +68,7 @@ def gym_set_state_representation(self, name):
             and self.state_space is ghost_result(TOGYM, 0))
 
 
-@contract(target=GM + 'GymEnvironment.set_observation_representation', args={'self': GYM, 'name': 'str'},
+@contract(target=GM + 'GymEnvironment.set_observation_representation', args={'self': GYM, 'name': REP_NAMES},
           stubs={MKO: ('object', {'space': 'Token'}), TOGYM: 'Token'}, props=['C20'])
 def gym_set_observation_representation(self, name):
     ensures('representation-and-advertised-space-change-together', lambda: returned()
